@@ -6,7 +6,22 @@ package cfg
 //
 // C18 / C13: field selector parsing never indexes out of range, for every selector.
 
+// Conservation of bytes: every byte of the selector ends up in exactly one path
+// element, or is an unescaped separator dot, or is an escape marker (the backslash
+// of "\." / the second dot of ".."): outlen + nsep + nesc == len(selector).  Nothing
+// already collected for an element is lost or repeated in a later element.
+
 //@ func ParseFieldSelector
+//@   ghost outlen int = 0
+//@   ghost nsep int = 0
+//@   ghost nesc int = 0
+//@   ensures outlen + nsep + nesc == len(selector)
+//@   loop 1 invariant outlen + len(tail) + nsep + nesc + len(selector) == old(len(selector)) && outlen >= 0 && nsep >= 0 && nesc >= 0
+//@   setat "selector[:pos-1]" nesc := nesc + 1
+//@   setat "selector[:pos+1]" nesc := nesc + 1
+//@   setat "result = append(result, tail+selector[:pos])" outlen := outlen + len(tail) + pos
+//@   setat "result = append(result, tail+selector[:pos])" nsep := nsep + 1
+//@   setat "result = append(result, tail+selector)" outlen := outlen + len(tail) + len(selector)
 
 // ParseNestedFields: a path is dropped exactly when an earlier (not longer) path is
 // an element-wise prefix of it; prefix(short, long) is the uninterpreted outcome
